@@ -12,6 +12,7 @@ package bundle
 import (
 	"archive/zip"
 	"bytes"
+	"context"
 	"fmt"
 	"io"
 	"path"
@@ -19,6 +20,7 @@ import (
 	"strings"
 
 	rbundle "github.com/arr-ai/arrai/pkg/bundle"
+	"github.com/arr-ai/arrai/pkg/importcache"
 	"github.com/arr-ai/arrai/rel"
 	"github.com/arr-ai/arrai/syntax"
 
@@ -38,10 +40,13 @@ type bres struct {
 	ops      []simfs.Op
 }
 
-func doBundle(fs *simfs.FS, mainArg string) (r bres) {
+func doBundle(ctx context.Context, fs *simfs.FS, mainArg string) (r bres) {
 	var w bytes.Buffer
+	if ctx == nil {
+		ctx = imports.Ctx(fs)
+	}
 	r.panicMsg, r.frame, _ = run.Guard(func() {
-		r.err = rbundle.BundledScriptsTo(imports.Ctx(fs), mainArg, &w, "")
+		r.err = rbundle.BundledScriptsTo(ctx, mainArg, &w, "")
 	})
 	r.buf = w.Bytes()
 	r.ops = fs.Ops()
@@ -132,13 +137,27 @@ func Run(c *run.Ctx) {
 	backA := imports.Chdir(cdA)
 	fsSrc := hostA.Clone("hostA-src")
 	fsSrc.Cwd = path.Join(W, cdA)
-	src := imports.EvalFile(imports.Ctx(fsSrc), fsSrc, mainArg)
+	// one third of the scenarios evaluate and then bundle on ONE context that carries an import cache,
+	// as an embedding host would (the CLI uses a fresh context for each command)
+	sharedCtx := t.Bool(1, 3)
+	srcCtx := imports.Ctx(fsSrc)
+	if sharedCtx {
+		srcCtx = importcache.WithNewImportCache(srcCtx)
+		c.Probe("evaluate-then-bundle-on-one-context")
+	}
+	src := imports.EvalFile(srcCtx, fsSrc, mainArg)
 	srcReads := imports.ContentReads(fsSrc.Ops())
-	fsBld := hostA.Clone("hostA-bundle")
-	fsBld.Cwd = path.Join(W, cdA)
-	b := doBundle(fsBld, mainArg)
+	var b bres
+	if sharedCtx {
+		fsSrc.ResetOps()
+		b = doBundle(srcCtx, fsSrc, mainArg)
+	} else {
+		fsBld := hostA.Clone("hostA-bundle")
+		fsBld.Cwd = path.Join(W, cdA)
+		b = doBundle(nil, fsBld, mainArg)
+	}
 	backA()
-	c.Res.Steps += len(fsSrc.Ops()) + len(b.ops)
+	c.Res.Steps += len(srcReads) + len(b.ops)
 	c.Logf("source: err=%v panic=%q reads=%d; bundle: err=%v panic=%q bytes>0=%v", src.Err() != nil, src.PanicMsg(), len(srcReads), b.err != nil, b.panicMsg, len(b.buf) > 0)
 
 	kinds := importKinds(main)
@@ -153,6 +172,12 @@ func Run(c *run.Ctx) {
 	}
 	if b.panicMsg != "" {
 		c.Violate("bundle-like-source", "C15/bundle-panic/"+b.frame, "bundling panicked: %.300s (main %s, cwd +%q; layout %v)", b.panicMsg, mainArg, cdA, l.Describe())
+		return
+	}
+	if sent, ok := l.Sents[main.ModRoot+"/go.mod"]; ok && !strings.HasPrefix(sent, "module ") && b.err != nil {
+		// the main file's own module sentinel has no `module` line: the bundler's refusal is the documented
+		// behaviour ("sentinel does not show module path"), not a disagreement with the source run
+		c.Probe("main-root-sentinel-without-module-line-refused")
 		return
 	}
 	if src.Err() == nil && b.err != nil {
@@ -255,7 +280,7 @@ func Run(c *run.Ctx) {
 			return nil
 		}
 		back := imports.Chdir(cdA)
-		b2 := doBundle(fs2, mainArg)
+		b2 := doBundle(nil, fs2, mainArg)
 		back()
 		c.Res.Steps += len(b2.ops)
 		if !fired {
